@@ -20,7 +20,7 @@ func planC14(tier string, root *simcore.RNG) *plan {
 		ops   []string
 		entry string
 	}
-	var cases []lcase
+	var cases, late []lcase
 	add := func(base string, ops ...string) {
 		cases = append(cases, lcase{base: base, ops: append([]string(nil), ops...), entry: "LoadSTL"})
 	}
@@ -164,6 +164,12 @@ func planC14(tier string, root *simcore.RNG) *plan {
 		}
 		for _, n := range counts {
 			add(bs("bin", n))
+			if n <= 300 {
+				// the same file lands in scenarios with other processor settings too
+				for k := 1; k <= 3; k++ {
+					late = append(late, lcase{base: bs("bin", n), entry: "LoadSTL"})
+				}
+			}
 			if n <= 300 || n%7 == 0 || n&(n-1) == 0 || n%1000 == 0 {
 				add(bs("stream", n))
 			}
@@ -270,6 +276,13 @@ func planC14(tier string, root *simcore.RNG) *plan {
 		}
 		cases = append(cases, lcase{base: b, ops: ops, entry: "LoadSTL"})
 	}
+	// spread the repeated valid files over the case list (scenarios differ in processor settings)
+	for i, c := range late {
+		pos := (i*977 + 13) % (len(cases) + 1)
+		cases = append(cases, lcase{})
+		copy(cases[pos+1:], cases[pos:])
+		cases[pos] = c
+	}
 	// the second entry point on a deterministic quarter of the cases (small files only)
 	n0 := len(cases)
 	for i := 0; i < n0; i += 4 {
@@ -284,7 +297,9 @@ func planC14(tier string, root *simcore.RNG) *plan {
 	id := 0
 	for i := 0; i < len(cases); i += per {
 		end := min(i+per, len(cases))
-		sc := &Scenario{Prop: "C14", Family: "load", Seed: root.Uint64(), Env: Env{GOMAXPROCS: 4, CPUs: 16}}
+		// (the loader may split work by processor count: every setting gets a share of the cases;
+		// GOMAXPROCS may exceed the number of CPUs)
+		sc := &Scenario{Prop: "C14", Family: "load", Seed: root.Uint64(), Env: Env{GOMAXPROCS: []int{4, 16, 1, 32, 2, 64, 3, 8}[(i/per)%8], CPUs: 16}}
 		var g []Job
 		for _, c := range cases[i:end] {
 			id++
